@@ -380,6 +380,179 @@ func c18Build(w *C18Workload) *c18Built {
 				}
 			}
 		}
+	case "raycluster", "rayjob", "rayservice":
+		// KubeRay: the RayCluster owns all pods; a RayJob / RayService owns the RayCluster and names it in its status.
+		// minMember = head + per worker group (minReplicas if set, else replicas) x numOfHosts; suspended groups count nothing
+		workers := max(1, n-1)
+		hosts := max(1, min(2, w.GroupSize))
+		minRep := min(w.ElasticMin, workers)
+		wg := map[string]any{"groupName": "wg", "replicas": i64(workers), "numOfHosts": i64(hosts), "template": map[string]any{}}
+		per := workers
+		if minRep > 0 {
+			wg["minReplicas"] = i64(minRep)
+			per = minRep
+		}
+		wgs := []any{wg}
+		if w.AnyOrder {
+			wgs = append(wgs, map[string]any{"groupName": "idle", "replicas": i64(2), "suspended": true, "template": map[string]any{}})
+		}
+		if w.Delayed && w.Kind == "raycluster" {
+			wgs = append(wgs, map[string]any{"replicas": i64(0), "template": map[string]any{}})
+		}
+		rcSpec := map[string]any{"headGroupSpec": map[string]any{"template": map[string]any{}}, "workerGroupSpecs": wgs}
+		var top, rc *unstructured.Unstructured
+		switch w.Kind {
+		case "raycluster":
+			rc = c18Obj("ray.io/v1", "RayCluster", w.Name, w.OwnerLabels, w.OwnerAnnots, nil, rcSpec)
+			b.owners, b.effective = append(b.owners, rc), rc
+		case "rayjob":
+			top = c18Obj("ray.io/v1", "RayJob", w.Name, w.OwnerLabels, w.OwnerAnnots, nil, map[string]any{"entrypoint": "python x.py"})
+			top.Object["status"] = map[string]any{"rayClusterName": w.Name + "-rc"}
+		case "rayservice":
+			top = c18Obj("ray.io/v1", "RayService", w.Name, w.OwnerLabels, w.OwnerAnnots, nil, map[string]any{})
+			st := "activeServiceStatus"
+			if w.Delayed {
+				st = "pendingServiceStatus"
+			}
+			top.Object["status"] = map[string]any{st: map[string]any{"rayClusterName": w.Name + "-rc"}}
+		}
+		if top != nil {
+			rc = c18Obj("ray.io/v1", "RayCluster", w.Name+"-rc", nil, nil, top, rcSpec)
+			b.owners, b.effective = append(b.owners, top, rc), top
+		}
+		b.minMember[shared] = int32(1 + per*hosts)
+		add(c18BuildPod(w, w.Name+"-head", map[string]string{"ray.io/group": "headgroup", "ray.io/node-type": "head"}, rc), shared)
+		for i := 0; i < min(4, workers*hosts); i++ {
+			add(c18BuildPod(w, fmt.Sprintf("%s-wg-%d", w.Name, i), map[string]string{"ray.io/group": "wg", "ray.io/node-type": "worker"}, rc), shared)
+		}
+	case "knative":
+		// Service -> Configuration -> Revision -> Deployment -> ReplicaSet -> pods; one gang per revision, minMember = min-scale
+		svc := c18Obj("serving.knative.dev/v1", "Service", w.Name, w.TopLabels, nil, nil, map[string]any{})
+		cfgo := c18Obj("serving.knative.dev/v1", "Configuration", w.Name, nil, nil, svc, map[string]any{})
+		ra := copyMap(w.OwnerAnnots)
+		want := int32(1)
+		if w.ElasticMin > 0 {
+			ra["autoscaling.knative.dev/min-scale"] = fmt.Sprint(w.ElasticMin)
+			want = int32(w.ElasticMin)
+		} else if w.Delayed {
+			ra["autoscaling.knative.dev/min-scale"] = "many" // not a number: documented fallback 1
+		}
+		rev := c18Obj("serving.knative.dev/v1", "Revision", w.Name+"-00001", w.OwnerLabels, ra, cfgo, map[string]any{})
+		dep := c18Obj("apps/v1", "Deployment", w.Name+"-00001-deployment", nil, nil, rev, map[string]any{"replicas": i64(n)})
+		rs := c18Obj("apps/v1", "ReplicaSet", w.Name+"-00001-deployment-rs", nil, nil, dep, map[string]any{"replicas": i64(n)})
+		b.owners, b.effective = append(b.owners, svc, cfgo, rev, dep, rs), rev
+		b.minMember[shared] = want
+		for i := 0; i < n; i++ {
+			add(c18BuildPod(w, fmt.Sprintf("%s-%d", w.Name, i), map[string]string{"serving.knative.dev/revision": rev.GetName()}, rs), shared)
+		}
+	case "grove", "dynamo":
+		// the Grove grouper rejects an unparsable preemptibility label (the pod stays ungrouped for good), the other groupers
+		// ignore it; a rejected input is not a grouping to judge, so these workloads only carry valid values (DESIGN 0.5)
+		for _, m := range []map[string]string{w.OwnerLabels, w.TopLabels, w.PodLabels} {
+			if v, ok := m["kai.scheduler/preemptibility"]; ok && v != "preemptible" && v != "non-preemptible" {
+				delete(m, "kai.scheduler/preemptibility")
+			}
+		}
+		// Grove: PodCliqueSet -> PodClique -> pods; the PodGang (owned by the PodCliqueSet) defines the gang: one sub-group per
+		// clique with its minimum and pod references, optionally under a parent group. Dynamo: a DynamoGraphDeployment on top.
+		var top *unstructured.Unstructured
+		pcsLabels, pcsAnnots := w.OwnerLabels, w.OwnerAnnots
+		if w.Kind == "dynamo" {
+			top = c18Obj("nvidia.com/v1alpha1", "DynamoGraphDeployment", w.Name+"-dgd", w.TopLabels, nil, nil, map[string]any{})
+			b.owners = append(b.owners, top)
+		}
+		pcs := c18Obj("grove.io/v1alpha1", "PodCliqueSet", w.Name, pcsLabels, pcsAnnots, top, map[string]any{"replicas": i64(1)})
+		b.owners, b.effective = append(b.owners, pcs), pcs
+		gang := w.Name + "-0"
+		na := max(1, n-1)
+		minA := max(1, min(na, w.ElasticMin))
+		var refsA, refsB []any
+		for i := 0; i < na; i++ {
+			refsA = append(refsA, map[string]any{"namespace": NS, "name": fmt.Sprintf("%s-0-a-%d", w.Name, i)})
+		}
+		refsB = append(refsB, map[string]any{"namespace": NS, "name": w.Name + "-0-b-0"})
+		gspec := map[string]any{"podgroups": []any{
+			map[string]any{"name": gang + "-a", "minReplicas": i64(minA), "podReferences": refsA},
+			map[string]any{"name": gang + "-b", "minReplicas": i64(1), "podReferences": refsB},
+		}}
+		if w.PodPriority != "" {
+			gspec["priorityClassName"] = w.PodPriority
+		}
+		var gangAnnots map[string]string
+		if w.AnyOrder {
+			gangAnnots = map[string]string{"grove.io/topology-name": "topo"}
+			gspec["topologyConstraint"] = map[string]any{"packConstraint": map[string]any{"preferred": "rack"}}
+			gspec["topologyConstraintGroupConfigs"] = []any{map[string]any{"name": "both", "podGroupNames": []any{gang + "-a", gang + "-b"},
+				"topologyConstraint": map[string]any{"packConstraint": map[string]any{"required": "zone"}}}}
+		}
+		pg := c18Obj("scheduler.grove.io/v1alpha1", "PodGang", gang, nil, gangAnnots, pcs, gspec)
+		ca := c18Obj("grove.io/v1alpha1", "PodClique", gang+"-a", nil, nil, pcs, map[string]any{"replicas": i64(na)})
+		cb := c18Obj("grove.io/v1alpha1", "PodClique", gang+"-b", nil, nil, pcs, map[string]any{"replicas": i64(1)})
+		b.owners = append(b.owners, pg, ca, cb)
+		b.minMember[shared] = int32(minA + 1)
+		for i := 0; i < na; i++ {
+			add(c18BuildPod(w, fmt.Sprintf("%s-0-a-%d", w.Name, i), map[string]string{"grove.io/podgang": gang}, ca), shared)
+		}
+		add(c18BuildPod(w, w.Name+"-0-b-0", map[string]string{"grove.io/podgang": gang}, cb), shared)
+	case "jax", "xgboost":
+		kind, field := "JAXJob", "jaxReplicaSpecs"
+		masters := 0
+		if w.Kind == "xgboost" {
+			kind, field = "XGBoostJob", "xgbReplicaSpecs"
+			masters = 1 // required by the XGBoost grouper
+		}
+		workers := max(1, n-masters)
+		specs := map[string]any{"Worker": map[string]any{"replicas": i64(workers)}}
+		if masters > 0 {
+			specs["Master"] = map[string]any{"replicas": i64(masters)}
+		}
+		spec := map[string]any{field: specs}
+		want := int32(masters + workers)
+		if w.MinAvailable > 0 {
+			spec["runPolicy"] = map[string]any{"schedulingPolicy": map[string]any{"minAvailable": i64(w.MinAvailable)}}
+			want = int32(w.MinAvailable)
+		}
+		o := c18Obj("kubeflow.org/v1", kind, w.Name, w.OwnerLabels, w.OwnerAnnots, nil, spec)
+		b.owners, b.effective = append(b.owners, o), o
+		b.minMember[shared] = want
+		for i := 0; i < masters; i++ {
+			add(c18BuildPod(w, fmt.Sprintf("%s-master-%d", w.Name, i), map[string]string{"training.kubeflow.org/replica-type": "master", "training.kubeflow.org/replica-index": fmt.Sprint(i)}, o), shared)
+		}
+		for i := 0; i < workers; i++ {
+			add(c18BuildPod(w, fmt.Sprintf("%s-worker-%d", w.Name, i), map[string]string{"training.kubeflow.org/replica-type": "worker", "training.kubeflow.org/replica-index": fmt.Sprint(i)}, o), shared)
+		}
+	case "amljob":
+		o := c18Obj("amlarc.azureml.com/v1alpha1", "AmlJob", w.Name, w.OwnerLabels, w.OwnerAnnots, nil,
+			map[string]any{"job": map[string]any{"options": map[string]any{"envs": map[string]any{"AZUREML_NODE_COUNT": i64(n)}}}})
+		b.owners, b.effective = append(b.owners, o), o
+		b.minMember[shared] = int32(n)
+		for i := 0; i < n; i++ {
+			add(c18BuildPod(w, fmt.Sprintf("%s-%d", w.Name, i), nil, o), shared)
+		}
+	case "runaijob", "seldon", "vmi", "spotrequest", "taskrun", "devworkspace":
+		api, kind := map[string][2]string{"runaijob": {"run.ai/v1", "RunaiJob"}, "seldon": {"machinelearning.seldon.io/v1", "SeldonDeployment"},
+			"vmi": {"kubevirt.io/v1", "VirtualMachineInstance"}, "spotrequest": {"egx.nvidia.io/v1", "SPOTRequest"},
+			"taskrun": {"tekton.dev/v1", "TaskRun"}, "devworkspace": {"workspace.devfile.io/v1alpha2", "DevWorkspace"}}[w.Kind][0], ""
+		kind = map[string]string{"runaijob": "RunaiJob", "seldon": "SeldonDeployment", "vmi": "VirtualMachineInstance", "spotrequest": "SPOTRequest",
+			"taskrun": "TaskRun", "devworkspace": "DevWorkspace"}[w.Kind]
+		var top *unstructured.Unstructured
+		if w.Kind == "taskrun" { // a TaskRun of a PipelineRun: the PipelineRun is the grouping owner
+			top = c18Obj("tekton.dev/v1", "PipelineRun", w.Name+"-pr", w.OwnerLabels, w.OwnerAnnots, nil, map[string]any{})
+			b.owners, b.effective = append(b.owners, top), top
+			o := c18Obj(api, kind, w.Name, nil, nil, top, map[string]any{})
+			b.owners = append(b.owners, o)
+			for i := 0; i < n; i++ {
+				add(c18BuildPod(w, fmt.Sprintf("%s-%d", w.Name, i), nil, o), shared)
+			}
+			b.minMember[shared] = 1
+			break
+		}
+		o := c18Obj(api, kind, w.Name, w.OwnerLabels, w.OwnerAnnots, nil, map[string]any{"parallelism": i64(1)})
+		b.owners, b.effective = append(b.owners, o), o
+		b.minMember[shared] = 1
+		for i := 0; i < n; i++ {
+			add(c18BuildPod(w, fmt.Sprintf("%s-%d", w.Name, i), nil, o), shared)
+		}
 	default:
 		panic("c18: unknown kind " + w.Kind)
 	}
@@ -961,6 +1134,10 @@ func c18Body(sc *C18Script, res *Result, salt, forceK int, check bool) *c18Final
 			if b.effective == nil {
 				return
 			}
+			if k := sc.Workloads[st.W%len(s.built)].Kind; (k == "grove" || k == "dynamo") && st.Arg == "kai.scheduler/preemptibility" &&
+				st.Val != "" && st.Val != "preemptible" && st.Val != "non-preemptible" {
+				return // rejected by the Grove grouper, see c18Build
+			}
 			o := b.effective.DeepCopy()
 			if err := setup.Get(ctx, client.ObjectKeyFromObject(o), o); err != nil {
 				return
@@ -1168,6 +1345,12 @@ func c18Body(sc *C18Script, res *Result, salt, forceK int, check bool) *c18Final
 				fail("strangers_merged", "pod group %s holds pods of two different workload units %s and %s", gname, prev, bp.key)
 			}
 			groupToKey[gname] = bp.key
+			if check {
+				res.Probes["c18_grouped_pods_"+sc.Workloads[wi].Kind]++
+				if len(g.Spec.SubGroups) > 0 {
+					res.Probes["c18_groups_with_subgroups_"+sc.Workloads[wi].Kind]++
+				}
+			}
 			if want, ok := b.minMember[bp.key]; ok && foreign[gname] == nil {
 				if g.Spec.MinMember != want {
 					fail("min_member", "%s workload %s: pod group %s has minMember %d, the workload defines %d", sc.Workloads[wi].Kind, sc.Workloads[wi].Name, gname, g.Spec.MinMember, want)
